@@ -454,6 +454,7 @@ def r4b_listing_examined_completely(ctx):
 def r5_errors_propagate(ctx):
     shared.local_listing_errors_propagate(ctx, 'C08.R5')
     shared.deletion_confined_to_gc_commands(ctx, 'C08.R1')
+    shared.adapter_delete_discipline(ctx, 'C08.R1')
     # "exactly those referenced by the remaining snapshots" presupposes listings that report every object once and to the end
     from ..report import Relabel as _RL8
     from .c12 import r1_bounded_retry as _br
